@@ -499,10 +499,10 @@ theorem goodblocks_fitD (P : Profile) (blocks : List (DefMsg × List (List Bytes
     refine ⟨block_fitsD P defs b.1 b.2 hd gb.localT gb.dev gb.wf gb.acc gb.fit, ?_⟩
     exact ih (fun x hx => hg x (List.mem_cons_of_mem _ hx)) _ (by rw [defsAfterAll_length]; exact hd)
 
-/-- what must hold of a File for the acceptance theorem: a 14-byte ".FIT" header, a file_id message
+/-- what must hold of a File for the acceptance theorem: a 12- or 14-byte ".FIT" header, a file_id message
     whose fields round-trip, and only messages of known types -/
 structure FileInDomain (P : Profile) (arch : Endian) (f : FileSt) : Prop where
-  hdr14 : f.hdr.size = headerSizeCRC
+  hdrSize : f.hdr.size = headerSizeNoCRC ∨ f.hdr.size = headerSizeCRC
   tag : f.hdr.dtype = fitTag
   proto : f.hdr.proto < 256 ∧ f.hdr.proto / 16 ≤ protoMajorMax
   fidNum : f.fileId.num = mnFileId
@@ -560,7 +560,8 @@ theorem decode_accepts_encode (P : Profile) (hwf : ProfileWF P = true) (arch : E
             rw [← h1] at hsmall
             simp only [finishEncode, List.length_append] at hsmall
             omega
-          rw [← h1, finishEncode_frame f body hdom.hdr14 hdom.tag hblen]
+          rw [← h1, finishEncode_frame f body hdom.hdrSize hdom.tag hblen]
+          generalize kindOfSize f.hdr.size = k
           -- the record area as blocks
           unfold encodeBody at hbody
           simp only [List.cons_append, List.nil_append] at hbody
@@ -605,8 +606,8 @@ theorem decode_accepts_encode (P : Profile) (hwf : ProfileWF P = true) (arch : E
               have hknf : P.known f.fileId.num = true := by rw [hdom.fidNum]; exact hdom.fidKnown
               obtain ⟨fs, parts0, st1, st2, hb0, hgood0, hs1, hs2, hf2, hd2, _, _⟩ :=
                 fileid_block_ok P hwf arch f.fileId b0 pm0 hpm0' hknf hdom.fidNum hfid hrt hinv
-                  (recState0 P g f.hdr.proto f.hdr.profile (b0 ++ br).length)
-                  { hdr := (afterHeader g f.hdr.proto f.hdr.profile (b0 ++ br).length).hdr, fileId := zeroFileId P }
+                  (recState0 P k g f.hdr.proto f.hdr.profile (b0 ++ br).length)
+                  { hdr := (afterHeader k g f.hdr.proto f.hdr.profile (b0 ++ br).length).hdr, fileId := zeroFileId P }
                   rfl rfl (by simp [recState0, afterHeader, DecSt.init])
               -- the whole record area as items
               have hitems : b0 ++ br = serialize (.defn (defOf arch f.fileId.num fs) false ::
@@ -622,7 +623,7 @@ theorem decode_accepts_encode (P : Profile) (hwf : ProfileWF P = true) (arch : E
                   ∃ f3, f2.init P = .ok f3 ∧ f3.cidx.isSome = true := by
                 refine ⟨_, hf2, ?_⟩
                 unfold FileSt.init
-                have : fileTypeOf { ({ hdr := (afterHeader g f.hdr.proto f.hdr.profile (serialize
+                have : fileTypeOf { ({ hdr := (afterHeader k g f.hdr.proto f.hdr.profile (serialize
                     (.defn (defOf arch f.fileId.num fs) false :: .data (defOf arch f.fileId.num fs).localT parts0 [] ::
                       blocks.flatMap fun b => blockItems b.1 b.2)).length).hdr, fileId := zeroFileId P } : FileSt)
                     with fileId := f.fileId } = fileTypeOf f := rfl
@@ -631,21 +632,27 @@ theorem decode_accepts_encode (P : Profile) (hwf : ProfileWF P = true) (arch : E
               obtain ⟨f2, hf2', f3, hinit3, hc3⟩ := hinit
               obtain ⟨st', hst', _⟩ := stepItems_blocks_ok P hwf blocks hgb { st2 with file := some f3 }
                 ⟨⟨f3, rfl, fun _ => hc3⟩, hd2⟩
-              have hrun : runItems P (afterHeader g f.hdr.proto f.hdr.profile (serialize
+              have hrun : runItems P (afterHeader k g f.hdr.proto f.hdr.profile (serialize
                   (.defn (defOf arch f.fileId.num fs) false :: .data (defOf arch f.fileId.num fs).localT parts0 [] ::
                     blocks.flatMap fun b => blockItems b.1 b.2)).length).hdr g
                   (.defn (defOf arch f.fileId.num fs) false :: .data (defOf arch f.fileId.num fs).localT parts0 [] ::
-                    blocks.flatMap fun b => blockItems b.1 b.2) = .ok st' := by
+                    blocks.flatMap fun b => blockItems b.1 b.2)
+                  (afterHeader k g f.hdr.proto f.hdr.profile (serialize
+                  (.defn (defOf arch f.fileId.num fs) false :: .data (defOf arch f.fileId.num fs).localT parts0 [] ::
+                    blocks.flatMap fun b => blockItems b.1 b.2)).length).crc = .ok st' := by
                 unfold runItems
                 simp only
                 have e0 : ({ DecSt.init g with
-                    hdr := (afterHeader g f.hdr.proto f.hdr.profile (serialize
+                    hdr := (afterHeader k g f.hdr.proto f.hdr.profile (serialize
                       (.defn (defOf arch f.fileId.num fs) false :: .data (defOf arch f.fileId.num fs).localT parts0 [] ::
                         blocks.flatMap fun b => blockItems b.1 b.2)).length).hdr,
-                    file := some { hdr := (afterHeader g f.hdr.proto f.hdr.profile (serialize
+                    crc := (afterHeader k g f.hdr.proto f.hdr.profile (serialize
+                      (.defn (defOf arch f.fileId.num fs) false :: .data (defOf arch f.fileId.num fs).localT parts0 [] ::
+                        blocks.flatMap fun b => blockItems b.1 b.2)).length).crc,
+                    file := some { hdr := (afterHeader k g f.hdr.proto f.hdr.profile (serialize
                       (.defn (defOf arch f.fileId.num fs) false :: .data (defOf arch f.fileId.num fs).localT parts0 [] ::
                         blocks.flatMap fun b => blockItems b.1 b.2)).length).hdr, fileId := zeroFileId P },
-                    unkInit := true } : DecSt) = recState0 P g f.hdr.proto f.hdr.profile (serialize
+                    unkInit := true } : DecSt) = recState0 P k g f.hdr.proto f.hdr.profile (serialize
                       (.defn (defOf arch f.fileId.num fs) false :: .data (defOf arch f.fileId.num fs).localT parts0 [] ::
                         blocks.flatMap fun b => blockItems b.1 b.2)).length := rfl
                 rw [e0, hs1]
@@ -671,7 +678,7 @@ theorem decode_accepts_encode (P : Profile) (hwf : ProfileWF P = true) (arch : E
               have hg' : (defOf arch f.fileId.num fs).global = mnFileId := hdom.fidNum
               generalize hrest : (blocks.flatMap fun b => blockItems b.1 b.2) = restItems at *
               generalize hd0 : defOf arch f.fileId.num fs = d0 at *
-              have key := decode_frame_ok P o g f.hdr.proto f.hdr.profile d0 false parts0 []
+              have key := decode_frame_ok P o k g f.hdr.proto f.hdr.profile d0 false parts0 []
                 restItems tail stop st' hdom.proto.1 hdom.proto.2 hgood0.wf hg' hdom.fidKnown hlen' hfitD hrun
               rw [key]
               exact finalize_okOut_success o _
